@@ -134,4 +134,20 @@ def patchOK (isMain : Bool) (inp : List Line) (updated changed : Bool) (out : Li
           && (updated == items.any (fun it => isK .delete it || isK .insert it || isK .generate it
                                               || (isMain && isK .main it))))
 
+/-- final state of the tracking import after the recorded actions -/
+def applyImports (present : Bool) (acts : List ImportAct) : Bool :=
+  acts.foldl (fun p a => match a with | .add => true | .delete => false | .keep => p) present
+
+/-- C10, file level: an instrumented (or not yet instrumented) source file imports the tracking
+    package iff it holds a generate / delete / main block; a main block in a non-main file is
+    not something the tool writes. Files outside this are not judged for their import. -/
+def importConsistent (isMain imp : Bool) (items : List Item) : Bool :=
+  (imp == items.any (fun it => isK .generate it || isK .delete it || isK .main it))
+  && (isMain || !items.any (isK .main))
+
+/-- after `PatchExecutor.prepareContent` the file must import the tracking package iff a
+    tracking block is left in it (otherwise it does not compile: undefined alias / unused import) -/
+def importExpected (isMain : Bool) (items : List Item) : Bool :=
+  (patchExpected isMain items).any (isK .generate)
+
 end GoatSpec
